@@ -97,6 +97,15 @@ func (f *file) extend(size uint32) (int64, error) {
 	return off, nil
 }
 
+// truncate changes the size of the file to size, which must not exceed the current size.
+func (f *file) truncate(size int64) error {
+	if err := f.Truncate(size); err != nil {
+		return err
+	}
+	f.size = size
+	return nil
+}
+
 func (f *file) append(data []byte) (int64, error) {
 	off := f.size
 	if _, err := f.WriteAt(data, off); err != nil {
